@@ -103,9 +103,22 @@ func vc05WriteRead(teletext bool) {
 		en := st + 2*time.Second + 200*time.Millisecond*time.Duration(k%5) // whole frames at 25 and at 30 fps
 		m := cueM{st: st, en: en, just: j, vp: vp}
 		nl := 1 + (k+c)%2
+		// a cue that fills the 112-byte text field exactly: three rows of 36, 36 and 38 one-byte characters (two bytes
+		// each in UTF-8) and two row separators
+		full := !teletext && c == 0 && k%6 == 5
+		if full {
+			nl = 3
+		}
 		it := &Item{StartAt: st, EndAt: en, InlineStyle: &StyleAttributes{STLJustification: &m.just, STLPosition: &STLPosition{VerticalPosition: vp, MaxRows: maxRows, Rows: nl}}}
 		for l := 0; l < nl; l++ {
 			runs := corpus[(k+2*c+3*l)%len(corpus)]
+			if full {
+				t := ""
+				for x := 0; x < []int{36, 36, 38}[l]; x++ {
+					t += []string{"ø", "æ", "ß"}[(x+l)%3]
+				}
+				runs = []vrunSTL{{text: t}}
+			}
 			m.lines = append(m.lines, runs)
 			var line Line
 			for _, r := range runs {
